@@ -259,10 +259,9 @@ pub fn global(global: &mut FunctionMap) {
                     }
                     Ok(BinOp::new(a, true, op, true, b).into())
                 }
-                Value::Paren(v) => match v.as_ref() {
-                    l @ Value::Paren(_) => Ok(l.clone()),
-                    l @ Value::BinOp(..) => Ok(l.clone()),
-                    _ => Ok(Value::Paren(v)),
+                Value::Paren(v) => match *v {
+                    l @ (Value::Paren(_) | Value::BinOp(..)) => do_eval(l),
+                    v => Ok(Value::Paren(Box::new(v))),
                 },
                 Value::List(v, sep, bra) => {
                     fn seems_numeric(v: &Value) -> bool {
